@@ -2162,6 +2162,13 @@ class Transport(threading.Thread, ClosingContextManager):
             reply.add_int(OPEN_FAILED_ADMINISTRATIVELY_PROHIBITED)
             reply.add_string("")
             reply.add_string("en")
+        else:
+            # Replies to requests we never made (REQUEST_SUCCESS/FAILURE,
+            # CHANNEL_OPEN_SUCCESS/FAILURE): nothing sensible to answer, and
+            # an empty Message cannot even be sent.
+            raise SSHException(
+                "Received message type {} before authentication".format(ptype)
+            )
         # NOTE: Post-open channel messages do not need checking; the above will
         # reject attempts to open channels, meaning that even if a malicious
         # user tries to send a MSG_CHANNEL_REQUEST, it will simply fall under
